@@ -383,6 +383,14 @@ def run(tier):
     if br.ocaml_ok:
         n2 += check_read(ck, tier)
     n3 = check_cli(ck, tier)
+    if tier == "thorough":
+        # independent re-check of every property file and everything it depends on, with the axioms it relies on
+        mods = ["VSG.props." + os.path.basename(f)[:-2] for f in sorted(os.listdir(os.path.join(vlib.COQ, "props"))) if f.endswith(".v")]
+        rc, out = vlib.sh(["timeout", "3000", "coqchk", "-silent", "-o", "-R", ".", "VSG"] + mods, cwd=vlib.COQ, timeout=3100)
+        ax = out.split("* Axioms:")[1].split("*")[0].strip() if "* Axioms:" in out else "?"
+        ck.cov["coqchk"] = {"rc": rc, "modules": len(mods), "axioms": ax}
+        if rc != 0 or ax != "<none>":
+            ck.broken_tie("coqchk", "coqchk -o: rc %d, axioms %s" % (rc, ax[:300]))
     ck.cov["evaluations"] = n1 + n2 + n3
     ck.cov["distinct_nontrivial"] = nt + n2
     ck.cov["rule"] = "tokenizer strings: exhaustive over a 22-symbol alphabet up to the stated length + distinct corpus lines + seeded random; non-trivial = splits into more than one token. files: every accepted fixture is one case"
